@@ -899,3 +899,21 @@ impl Axecutor {
         self.internal_mem_read_128(address)
     }
 }
+
+// Verification hooks (only compiled with `--cfg ax_verif`): read-only view of the area list
+#[cfg(ax_verif)]
+impl Axecutor {
+    /// (start, length, data length, access, name) of every memory area, in internal order
+    pub fn verif_areas(&self) -> Vec<(u64, u64, usize, u32, Option<String>)> {
+        self.state
+            .memory
+            .iter()
+            .map(|a| (a.start, a.length, a.data.len(), a.access, a.name.clone()))
+            .collect()
+    }
+
+    /// Raw contents of the area at the given index of `verif_areas`, ignoring permissions
+    pub fn verif_area_data(&self, idx: usize) -> Option<Vec<u8>> {
+        self.state.memory.get(idx).map(|a| a.data.clone())
+    }
+}
